@@ -13,8 +13,9 @@ def _work(job):
     try:
         g = crash.prepare(seed, arr.Conf(**confkw), pending=pending)
         idx = 0
-        for cache in caches:
-            flags = ("-E", "--test-io-cache", str(cache))
+        variants = [("-E", "--test-io-cache", str(cache)) for cache in caches] + [("-E", "-h", "--test-io-cache", str(caches[0]))]
+        for flags in (variants if pending != "tiny" else []):
+            cache = flags[-1] + ("h" if "-h" in flags else "")
             pts = faults.fault_points(g.a, "sync", *flags)
             for pt in pts:
                 kinds = ["eio"] + (["enospc"] if pt[0] == "pwrite" else [])
@@ -68,13 +69,15 @@ def run(tier):
     s0 = vlib.seed() * 100
     if quick:
         jobs = [(s0 + 1, dict(nd=2, np=2, copies=2), "adds", (3, 1), 1),
-                (s0 + 2, dict(nd=3, np=1, copies=2), "mixed", (8, 128), 2)]
+                (s0 + 2, dict(nd=3, np=1, copies=2), "mixed", (8, 128), 2),
+                (s0 + 3, dict(nd=2, np=1, copies=2), "tiny", (3, 1), 1)]
     else:
         jobs = []
         for i, sh in enumerate([dict(nd=2, np=2, copies=2), dict(nd=3, np=1, copies=2), dict(nd=3, np=3, copies=1), dict(nd=4, np=2, copies=2),
                                 dict(nd=2, np=6, copies=2)]):
             for pending in ("adds", "mixed"):
                 jobs.append((s0 + 10 + 2 * i + (pending == "mixed"), sh, pending, (1, 3, 8, 128), 1))
+            jobs.append((s0 + 40 + i, sh, "tiny", (1, 8), 1))
     with multiprocessing.Pool(min(8, len(jobs))) as pool:
         res = pool.map(_work, jobs, chunksize=1)
     scs = []
